@@ -219,6 +219,12 @@ func runC14(s *spec.Spec, logPath string) {
 			names, data := c.resolve(st)
 			c.applyFix(names, data)
 		}
+		if st.Quiet && i < len(s.History)-1 {
+			// corrections pushed one after the other: a check is itself a series of queries, and queries may refresh
+			// whatever the library keeps lazily; the next fix-up must work on the state this one left
+			probesC["fixes_back_to_back_without_a_query"]++
+			continue
+		}
 		c.checkAll(i == len(s.History)-1)
 	}
 	c.out.RunMs = time.Since(t0).Milliseconds()
